@@ -57,6 +57,9 @@ impl Backend {
             }
             b.send("(set-option :produce-unsat-assumptions true)");
             b.send("(set-option :produce-models true)");
+            if let Ok(r) = std::env::var("REFSOLVER_RLIMIT") {
+                b.send(&format!("(set-option :rlimit {r})"));
+            }
             b.send("(set-logic ALL)");
             return b;
         }
@@ -79,6 +82,9 @@ impl Backend {
         let mut b = Backend { child: Some(child), stdin: Box::new(stdin), stdout: Box::new(BufReader::new(stdout)) };
         b.send("(set-option :produce-unsat-assumptions true)");
         b.send("(set-option :produce-models true)");
+        if let Ok(r) = std::env::var("REFSOLVER_RLIMIT") {
+            b.send(&format!("(set-option :rlimit {r})"));
+        }
         b.send("(set-logic ALL)");
         b
     }
